@@ -4,5 +4,6 @@ CONSTANTS
   Vals = {"a", "b", "c"}
   MaxDepth = 99
   PosVals <- PosNone
+  Thens = {"none", "assign", "export", "ro"}
 POSTCONDITION Complete
 CHECK_DEADLOCK FALSE
